@@ -513,7 +513,200 @@ pub fn check_concurrent(c: &Concurrent, obs: &mut Obs) -> CaseResult {
     Ok(())
 }
 
+// ---- the configuration-file route: filters with a memory ------------------------------------------------------------
+
+/// Appenders and filters come out of a configuration document (YAML text -> RawConfig -> appenders_lossy with
+/// user-defined kinds registered through Deserializers::insert). The filter kind `verif_every` has a memory: it rejects
+/// every k-th record IT is consulted about. Several appenders declare it with identical settings - each appender's chain
+/// decides for that appender alone, so each declaration is a filter of its own.
+#[derive(Serialize, Deserialize, Debug, Clone)]
+pub struct FileRoute {
+    /// per appender: its filters (0: threshold info, 1: threshold warn, 2..=4: every 2nd / 3rd / 4th record)
+    pub apps: Vec<Vec<u8>>,
+    /// which appenders the logger "x" (not additive) has; the root has all of them
+    pub on_x: Vec<bool>,
+    /// records: (target is "x::y" rather than "other", level index)
+    pub records: Vec<(bool, u8)>,
+}
+
+pub fn file_route_strategy() -> impl Strategy<Value = FileRoute> {
+    (2usize..=4).prop_flat_map(|n| {
+        (
+            prop::collection::vec(prop::collection::vec(prop_oneof![1 => Just(0u8), 1 => Just(1u8), 4 => Just(2u8), 2 => Just(3u8), 1 => Just(4u8)], 0..=3), n),
+            prop::collection::vec(prop::bool::ANY, n),
+            prop::collection::vec((prop::bool::ANY, 0u8..5), 4..=24),
+        )
+            .prop_map(|(apps, on_x, records)| FileRoute { apps, on_x, records })
+    })
+}
+
+static COLLECTED: Mutex<Vec<(u64, usize, String)>> = Mutex::new(Vec::new());
+static ROUTE_RUN: std::sync::atomic::AtomicU64 = std::sync::atomic::AtomicU64::new(0);
+
+#[derive(Debug)]
+struct Collect {
+    run: u64,
+    id: usize,
+}
+
+impl Append for Collect {
+    fn append(&self, record: &log::Record) -> anyhow::Result<()> {
+        COLLECTED.lock().unwrap_or_else(|e| e.into_inner()).push((self.run, self.id, record.args().to_string()));
+        Ok(())
+    }
+    fn flush(&self) {}
+}
+
+#[derive(serde::Deserialize)]
+struct CollectConfig {
+    run: u64,
+    id: usize,
+}
+
+struct CollectDeserializer;
+
+impl log4rs::config::Deserialize for CollectDeserializer {
+    type Trait = dyn Append;
+    type Config = CollectConfig;
+    fn deserialize(&self, c: CollectConfig, _: &log4rs::config::Deserializers) -> anyhow::Result<Box<dyn Append>> {
+        Ok(Box::new(Collect { run: c.run, id: c.id }))
+    }
+}
+
+#[derive(Debug)]
+struct Every {
+    k: u64,
+    seen: std::sync::atomic::AtomicU64,
+}
+
+impl Filter for Every {
+    fn filter(&self, _: &log::Record) -> Response {
+        let n = self.seen.fetch_add(1, std::sync::atomic::Ordering::SeqCst) + 1;
+        if n % self.k == 0 {
+            Response::Reject
+        } else {
+            Response::Neutral
+        }
+    }
+}
+
+#[derive(serde::Deserialize)]
+struct EveryConfig {
+    k: u64,
+}
+
+struct EveryDeserializer;
+
+impl log4rs::config::Deserialize for EveryDeserializer {
+    type Trait = dyn Filter;
+    type Config = EveryConfig;
+    fn deserialize(&self, c: EveryConfig, _: &log4rs::config::Deserializers) -> anyhow::Result<Box<dyn Filter>> {
+        anyhow::ensure!(c.k >= 1, "verif_every: k must be positive");
+        Ok(Box::new(Every { k: c.k, seen: Default::default() }))
+    }
+}
+
+pub fn check_file_route(c: &FileRoute, obs: &mut Obs) -> CaseResult {
+    let run = ROUTE_RUN.fetch_add(1, std::sync::atomic::Ordering::SeqCst) + 1 + ((std::process::id() as u64) << 32);
+    let mut y = String::from("appenders:\n");
+    for (i, fs) in c.apps.iter().enumerate() {
+        y.push_str(&format!("  app{}:\n    kind: verif_collect\n    run: {}\n    id: {}\n", i, run, i));
+        if !fs.is_empty() {
+            y.push_str("    filters:\n");
+            for f in fs {
+                match f {
+                    0 => y.push_str("      - kind: threshold\n        level: info\n"),
+                    1 => y.push_str("      - kind: threshold\n        level: warn\n"),
+                    k => y.push_str(&format!("      - kind: verif_every\n        k: {}\n", k)),
+                }
+            }
+        }
+    }
+    let all: Vec<String> = (0..c.apps.len()).map(|i| format!("app{}", i)).collect();
+    let on_x: Vec<String> = (0..c.apps.len()).filter(|i| c.on_x.get(*i).copied().unwrap_or(false)).map(|i| format!("app{}", i)).collect();
+    y.push_str(&format!("root:\n  level: trace\n  appenders: [{}]\nloggers:\n  x:\n    level: trace\n    additive: false\n    appenders: [{}]\n", all.join(", "), on_x.join(", ")));
+    let mut d = log4rs::config::Deserializers::default();
+    d.insert("verif_collect", CollectDeserializer);
+    d.insert("verif_every", EveryDeserializer);
+    let built = catch(|| -> Result<Config, String> {
+        let raw: log4rs::config::RawConfig = serde_yaml::from_str(&y).map_err(|e| format!("harness YAML: {}", e))?;
+        let (apps, errs) = raw.appenders_lossy(&d);
+        if !errs.is_empty() {
+            return Err(format!("deserializing the appenders reported {:?}", errs));
+        }
+        Config::builder().appenders(apps).loggers(raw.loggers()).build(raw.root()).map_err(|e| e.to_string())
+    });
+    let config = match built {
+        Err(p) => return fail("C03:panic", format!("loading the document panicked: {}", p)),
+        Ok(Err(e)) => return fail("C03:harness", format!("{} :: {}", e, y)),
+        Ok(Ok(cfg)) => cfg,
+    };
+    let logger = log4rs::Logger::new(config);
+    // model: one memory per declared filter
+    let mut seen: Vec<Vec<u64>> = c.apps.iter().map(|fs| vec![0; fs.len()]).collect();
+    let mut want: Vec<Vec<String>> = vec![vec![]; c.apps.len()];
+    for (n, (to_x, l)) in c.records.iter().enumerate() {
+        let level = LEVELS[*l as usize % 5];
+        let msg = format!("r{}", n);
+        let target = if *to_x { "x::y" } else { "other" };
+        if let Err(p) = catch(|| logger.log(&log::Record::builder().args(format_args!("{}", msg)).level(level).target(target).build())) {
+            return fail("C03:panic", format!("log() panicked: {}", p));
+        }
+        for (i, fs) in c.apps.iter().enumerate() {
+            if *to_x && !c.on_x.get(i).copied().unwrap_or(false) {
+                continue;
+            }
+            let mut pass = true;
+            for (j, f) in fs.iter().enumerate() {
+                match f {
+                    0 | 1 => {
+                        if level > [log::Level::Info, log::Level::Warn][*f as usize] {
+                            pass = false;
+                        }
+                    }
+                    k => {
+                        seen[i][j] += 1;
+                        if seen[i][j] % *k as u64 == 0 {
+                            pass = false;
+                        }
+                    }
+                }
+                if !pass {
+                    break;
+                }
+            }
+            if pass {
+                want[i].push(msg.clone());
+            }
+        }
+    }
+    let mut got: Vec<Vec<String>> = vec![vec![]; c.apps.len()];
+    {
+        let mut g = COLLECTED.lock().unwrap_or_else(|e| e.into_inner());
+        g.retain(|(r, id, m)| {
+            if *r == run {
+                if let Some(v) = got.get_mut(*id) {
+                    v.push(m.clone());
+                }
+                false
+            } else {
+                true
+            }
+        });
+    }
+    obs.sub_evals += c.records.len() as u64;
+    let shared_decl = c.apps.iter().enumerate().any(|(i, a)| a.iter().any(|f| *f >= 2 && c.apps.iter().enumerate().any(|(j, b)| j != i && b.contains(f))));
+    obs.nontrivial = shared_decl;
+    obs.class_if(shared_decl, "file-route:identical-stateful-filter-on-two-appenders");
+    for i in 0..c.apps.len() {
+        ensure!(got[i] == want[i], "C03:delivery", "configuration-file route, appender app{} (filters {:?}; 2..4 = rejects every k-th record it is consulted about): received {:?}, its own chain delivers {:?} :: {}", i, c.apps[i], got[i], want[i], y.replace('\n', "\\n"));
+    }
+    Ok(())
+}
+
 pub fn run(run: &Run) {
+    run.run_replays::<FileRoute>("file-route", &check_file_route);
+    run.search("file-route", run.tier.pick(400, 20_000), file_route_strategy(), &check_file_route);
     run.run_replays::<Concurrent>("concurrent", &check_concurrent);
     run.search("concurrent", run.tier.pick(24, 600), (2u8..=6, 10u8..=40, prop::collection::vec(prop_oneof![Just(0u8), 2u8..5], 1..=3)).prop_map(|(threads, records, reject_every)| Concurrent { threads, records, reject_every }), &check_concurrent);
     run.run_replays::<Case>("chains", &check);
@@ -524,6 +717,7 @@ pub fn run(run: &Run) {
 pub fn replay(part: &str, case: serde_json::Value) -> Option<CaseResult> {
     match part {
         "chains" | "chains-exhaustive" => Some(check(&serde_json::from_value(case).ok()?, &mut Obs::default())),
+        "file-route" => Some(check_file_route(&serde_json::from_value(case).ok()?, &mut Obs::default())),
         "concurrent" => Some(check_concurrent(&serde_json::from_value(case).ok()?, &mut Obs::default())),
         "threshold-table" => Some(check_truth(&serde_json::from_value(case).ok()?, &mut Obs::default())),
         _ => None,
@@ -533,7 +727,7 @@ pub fn replay(part: &str, case: serde_json::Value) -> Option<CaseResult> {
 pub fn meta() -> EvidenceMeta {
     EvidenceMeta {
         level: "exploration",
-        rule: "cases = 1-4 appenders on the root, each with a chain of 0-5 filters (scripted Accept/Neutral/Reject that log their consultation, real ThresholdFilters at generated levels wrapped to observe the consultation) and a scripted outcome (Ok / Err(tag)), root level generated, 1-5 records at generated levels; plus exhaustive sweeps (121 chains <= 4 x failing/healthy x position x companion; threshold truth table). Oracle per appender independently: filters consulted = chain prefix up to and including the first non-Neutral answer, delivered iff that answer is Accept or none exists, another appender's rejection/error never changes this, error handler receives exactly the tags of failing delivered appenders once each; no consultation for records the logger does not admit. Filters may answer by what the record says (message-dependent Accept/Neutral/Reject: records from one call site with one level do not share a verdict); failing appenders fail with plain errors or I/O errors of eight kinds (BrokenPipe, Interrupted, WouldBlock, ... bare or wrapped in context). Appender names of neighbours differ only in letter case. Part concurrent: 2-6 threads log 10-40 records each through one logger whose appenders take a moment per record and reject every k-th record: every record is delivered to every appender exactly as its chain says. An appender may be a whole nested log4rs::Logger, or a foreign log::Log whose enabled() refuses everything while its log() records (attachment and chain alone decide delivery). In 15% of the cases the error handler panics after recording the error: every appender whose chain delivers has been served all the same. Chains may hold the library's ThresholdFilter unwrapped; in 30% of the cases every failing appender fails with the very same std::io::Error. Filters and appender references are attached through a mix of singular and bulk builder calls; in 15% of the cases the error handler of another logger panicked earlier on the thread (caught). non-trivial = >=2 appenders with different verdicts, or a failing appender before a healthy one, or an Accept before a Reject in one chain".into(),
+        rule: "cases = 1-4 appenders on the root, each with a chain of 0-5 filters (scripted Accept/Neutral/Reject that log their consultation, real ThresholdFilters at generated levels wrapped to observe the consultation) and a scripted outcome (Ok / Err(tag)), root level generated, 1-5 records at generated levels; plus exhaustive sweeps (121 chains <= 4 x failing/healthy x position x companion; threshold truth table). Oracle per appender independently: filters consulted = chain prefix up to and including the first non-Neutral answer, delivered iff that answer is Accept or none exists, another appender's rejection/error never changes this, error handler receives exactly the tags of failing delivered appenders once each; no consultation for records the logger does not admit. Filters may answer by what the record says (message-dependent Accept/Neutral/Reject: records from one call site with one level do not share a verdict); failing appenders fail with plain errors or I/O errors of eight kinds (BrokenPipe, Interrupted, WouldBlock, ... bare or wrapped in context). Appender names of neighbours differ only in letter case. Part file-route: appenders and filters come out of a configuration document (user-defined kinds through Deserializers::insert); the filter kind verif_every rejects every k-th record it is consulted about and is declared with identical settings on several appenders - each appender receives what its own chain, with its own memory, delivers. Part concurrent: 2-6 threads log 10-40 records each through one logger whose appenders take a moment per record and reject every k-th record: every record is delivered to every appender exactly as its chain says. An appender may be a whole nested log4rs::Logger, or a foreign log::Log whose enabled() refuses everything while its log() records (attachment and chain alone decide delivery). In 15% of the cases the error handler panics after recording the error: every appender whose chain delivers has been served all the same. Chains may hold the library's ThresholdFilter unwrapped; in 30% of the cases every failing appender fails with the very same std::io::Error. Filters and appender references are attached through a mix of singular and bulk builder calls; in 15% of the cases the error handler of another logger panicked earlier on the thread (caught). non-trivial = >=2 appenders with different verdicts, or a failing appender before a healthy one, or an Accept before a Reject in one chain".into(),
         assumptions: vec!["filters and appenders are harness implementations (plus the real ThresholdFilter)".into()],
         mutants_caught: vec![],
     }
